@@ -2700,6 +2700,16 @@ class Session(_SessionClassMethods, EventTarget):
         """
 
         all_states = self.identity_map.all_states() + list(self._new)
+        if self._transaction is not None:
+            # objects in the "deleted" state are referred to only by the
+            # transaction(s) in progress
+            deleted = {
+                s
+                for trans in self._transaction._iterate_self_and_parents()
+                for s in trans._deleted
+                if s._deleted and s.session_id == self.hash_key
+            }
+            all_states.extend(deleted.difference(all_states))
         self.identity_map._kill()
         self.identity_map = identity._WeakInstanceDict()
         self._new = {}
